@@ -490,8 +490,8 @@ Proof.
   destruct (fe_loop_indep n tol 0 (n - 1) _ _ H) as [EA [ES EF]].
   rewrite <- EF, <- EA, <- ES.
   destruct (fflag (for_range 0 (n - 1) (fe_step n tol) (mkf A b s false))) eqn:E.
-  - rewrite <- EF. reflexivity.
-  - destruct (nltb _ tol); [reflexivity|]. rewrite <- EF. reflexivity.
+  - congruence.
+  - destruct (nltb _ tol); cbn [fflag]; congruence.
 Qed.
 
 Lemma ge_ok_any_rhs n (A : mat R) (b b' : vec R) tol x :
@@ -565,3 +565,48 @@ Proof.
                 (fb (forward_elimination h tol A b (scale_vec h A))) (vconst n0) E) as [x Hx].
     rewrite Hx. discriminate.
 Qed.
+
+(* ---------------------------------------------------------------- the list boundary (what is extracted and run) *)
+Lemma c08_lists : forall (rows : list (list R)) (rhs : list R) (tol : R) (xs : list R),
+  0 < tol -> ge_lists rows rhs tol = Ok xs ->
+  (forall r, In r rows -> length r = length rows) /\ length rhs = length rows /\ length xs = length rows /\
+  forall i, (i < length rows)%nat ->
+    Rsum_n (length rows) (fun j => nth j (nth i rows []) 0 * nth j xs 0) = nth i rhs 0.
+Proof.
+  intros rows rhs tol xs Ht. unfold ge_lists.
+  destruct (rows_consistent rows) eqn:C; cbn [negb]; [|discriminate].
+  destruct (ge _ _ _ _ _ _) as [x|e|y] eqn:G; cbn [res_map]; try discriminate.
+  intro H. injection H as <-.
+  destruct (c08_solves _ _ _ _ _ _ _ Ht G) as [E1 [E2 Hs]].
+  repeat split.
+  - intros r Hr. unfold rows_consistent in C. rewrite forallb_forall in C.
+    specialize (C r Hr). apply Nat.eqb_eq in C. lia.
+  - lia.
+  - unfold list_of_vec. rewrite map_length, seq_length. reflexivity.
+  - intros i Hi. rewrite <- (Hs i Hi). apply Rsum_n_ext. intros j Hj.
+    unfold list_of_vec. rewrite (nth_seq_map x (length rows) j 0 Hj). reflexivity.
+Qed.
+
+(* ---------------------------------------------------------------- non-vacuity: a 2x2 system that needs the row swap *)
+Definition ex_A : mat R := mat_of_lists [[1; 2]; [3; 4]].
+Definition ex_b : vec R := vec_of_list [5; 6].
+
+Ltac rabs :=
+  repeat match goal with
+  | |- context [Rabs ?t] =>
+      first [ rewrite (Rabs_pos_eq t) by lra | rewrite (Rabs_left1 t) by lra ]
+  end.
+Ltac rcmp :=
+  repeat match goal with
+  | |- context [Rltb ?a ?b] =>
+      first [ rewrite (proj2 (Rltb_true a b)) by lra | rewrite (proj2 (Rltb_false a b)) by lra ]
+  | |- context [Reqb ?a ?b] =>
+      first [ rewrite (proj2 (Reqb_true a b)) by lra | rewrite (proj2 (Reqb_false a b)) by lra ]
+  end.
+Ltac rstep := cbv - [Rplus Rminus Rmult Rdiv Rinv Ropp Rabs Rltb Rleb Reqb IZR Rlt Rle]; rabs; rcmp.
+
+Lemma ex_ge_ok : exists x, ge 2 2 ex_A 2 ex_b (1 / 100) = Ok x.
+Proof.
+  unfold ge, ex_A, ex_b.
+  rstep.
+Abort.
